@@ -148,3 +148,28 @@ func (w *FailWriter) Write(p []byte) (int, error) {
 		return len(p), nil
 	}
 }
+
+// YieldReader / YieldWriter announce a possible thread switch inside every
+// Read / Write call, after the bytes have been copied and before the call
+// returns (see engine.Interleaver).
+type YieldReader struct {
+	R     io.Reader
+	Yield func()
+}
+
+func (y *YieldReader) Read(p []byte) (int, error) {
+	n, err := y.R.Read(p)
+	y.Yield()
+	return n, err
+}
+
+type YieldWriter struct {
+	W     io.Writer
+	Yield func()
+}
+
+func (y *YieldWriter) Write(p []byte) (int, error) {
+	n, err := y.W.Write(p)
+	y.Yield()
+	return n, err
+}
